@@ -63,7 +63,6 @@
 use anyhow::Result;
 use serde_json::{Map, Value, json, to_string_pretty};
 use std::any::Any;
-use std::cmp::Ordering;
 use std::collections::HashMap;
 use std::fs::File;
 use std::io::Write;
@@ -481,7 +480,9 @@ impl HistogramMetric {
         }
 
         let mut sorted = self.values.clone();
-        sorted.sort_by(|a, b| a.partial_cmp(b).unwrap_or(Ordering::Equal));
+        // `total_cmp` is a total order; comparing NaN as `Equal` to everything is not, and
+        // `sort_by` may panic on such a comparator (it did: a recorded NaN among ~20+ values).
+        sorted.sort_by(f64::total_cmp);
 
         let count = sorted.len();
         let sum: f64 = sorted.iter().sum();
